@@ -7,6 +7,8 @@ Decoding direction only carries data computed by TLC; there is no semantics here
 class Pred:
     """The callable a `pred` node evaluates to (predicate value [t |-> "P"])."""
 
+    make_exc = None  # set by build.Built for the duration of a replay (exception kind under test)
+
     def __init__(self, pred, arg):
         self.pred = pred
         self.arg = arg
@@ -24,7 +26,7 @@ class Pred:
         if p == "never":
             return False
         if p == "raise":
-            raise UserRaise("pred")
+            raise (Pred.make_exc("pred") if Pred.make_exc else UserRaise("pred"))
         raise ValueError(p)
 
     def __eq__(self, other):
